@@ -205,6 +205,8 @@ class Runner:
         try:
             so, cdir = X.compile_c(res['c_h'], res['c_c'], self.work(), 'm', strict=self.prop == 'C17')
             crun = X.CRun(so, res['c_h'])
+        except OSError as oe:
+            probs.append((None, 'c-library-does-not-load', {'error': str(oe)[:300]}))
         except X.CompileError as ce:
             first = re.search(r'(error|warning): (.*?)( \[-W[^\]]*\])?$', ce.diag, re.M)
             probs.append((None, 'c-does-not-compile-cleanly' + (first.group(3).strip() if first and first.group(3) else ''), {'diagnostics': ce.diag[:1500]}))
